@@ -1022,6 +1022,9 @@ class Executor:
                 raise Unsupported("index arity", n)
             idx = self.index_terms(a, idx_vals, st, n, spec)
             return self.wrap_elem(a, a.select(idx))
+        if isinstance(base, VOpaque) and isinstance(self.ev(sl, st, spec), VStr):
+            # entry of a dispatch table (a dict parameter) selected by a string that is constant here: an unknown but fixed function
+            return VFunc("param:%s_entry" % base.t)
         raise Unsupported("subscript of %r" % (base,), n)
 
     def mask_index(self, base, mask, st, n, spec):
@@ -1399,6 +1402,20 @@ class Executor:
             if isinstance(a, VInt):
                 return VInt(z3.If(a.t >= 0, a.t, -a.t))
             return VFloat(xr.fabs(to_float(a, n)))
+        if b in ("min", "max") and len(args) == 1 and isinstance(args[0], VRef) and st.heap[args[0].cell].ndim == 1:
+            # assumed Python contract: min / max of a non-empty sequence without NaN is one of its elements and bounds all of them
+            a = st.heap[args[0].cell]
+            if not spec:
+                self.raise_if(st, a.shape[0] == 0, "ValueError", n)
+            m = fresh_scalar(b, "f" if a.et == "f" else "i")
+            k, w = z3.Int(fresh_name("mk")), z3.Int(fresh_name(b + ".at"))
+            ek, ew = self.wrap_elem(a, a.select([k])), self.wrap_elem(a, a.select([w]))
+            op = ast.LtE() if b == "min" else ast.GtE()
+            nonan = z3.ForAll([k], z3.Implies(z3.And(k >= 0, k < a.shape[0]), z3.Not(xr.is_nan(to_float(ek))))) if a.et == "f" else z3.BoolVal(True)
+            st.assume(z3.Implies(nonan, z3.And(w >= 0, w < a.shape[0], self.cmp(ast.Eq(), m, ew, n),
+                                               z3.ForAll([k], z3.Implies(z3.And(k >= 0, k < a.shape[0]), self.cmp(op, m, ek, n))))))
+            self.notes.append("assumed: %s(seq) of a NaN-free non-empty sequence is an element that bounds all elements" % b)
+            return m
         if b in ("min", "max"):
             if len(args) == 1 and isinstance(args[0], VTuple):
                 args = args[0].items
@@ -1784,6 +1801,49 @@ class Executor:
                 if meth == "any":
                     return VBool(z3.Exists(ks, z3.And(rng, a.select(ks))))
                 return VBool(z3.ForAll(ks, z3.Implies(rng, a.select(ks))))
+            if meth == "index" and len(args) == 1 and a.ndim == 1 and not kwargs:
+                # assumed Python contract: seq.index(v) is the first position holding a value equal to v (ValueError if none)
+                k, i = z3.Int(fresh_name("ik")), z3.Int(fresh_name("index"))
+                ek = self.wrap_elem(a, a.select([k]))
+                ei = self.wrap_elem(a, a.select([i]))
+                v = args[0]
+                if not spec:
+                    self.raise_if(st, z3.Not(z3.Exists([k], z3.And(k >= 0, k < a.shape[0], self.cmp(ast.Eq(), ek, v, n)))), "ValueError", n)
+                st.assume(z3.And(i >= 0, i < a.shape[0], self.cmp(ast.Eq(), ei, v, n),
+                                 z3.ForAll([k], z3.Implies(z3.And(k >= 0, k < i), z3.Not(self.cmp(ast.Eq(), ek, v, n))))))
+                self.notes.append("assumed: seq.index(v) is the first position whose element equals v")
+                return VInt(i)
+            if meth == "sort" and a.ndim == 1 and not args and not kwargs:
+                # assumed Python / NumPy contract: in-place sort of a NaN-free sequence leaves a non-decreasing rearrangement
+                # (every new element is an old one and vice versa; multiplicities are not modelled)
+                snew = fresh_array("sorted", a.et, 1)
+                i, j = z3.Int(fresh_name("si")), z3.Int(fresh_name("sj"))
+                src = z3.Function(fresh_name("sort.from"), z3.IntSort(), z3.IntSort())
+                dst = z3.Function(fresh_name("sort.to"), z3.IntSort(), z3.IntSort())
+                ln = a.shape[0]
+                old_i = self.wrap_elem(a, a.select([i]))
+                w = lambda t: self.wrap_elem(a, t)
+                nonan = z3.ForAll([i], z3.Implies(z3.And(i >= 0, i < ln), z3.Not(xr.is_nan(to_float(old_i))))) if a.et == "f" else z3.BoolVal(True)
+                si, sj = z3.Select(snew, i), z3.Select(snew, j)
+                facts = z3.And(
+                    z3.ForAll([i, j], z3.Implies(z3.And(0 <= i, i <= j, j < ln), self.cmp(ast.LtE(), w(si), w(sj), n)),
+                              patterns=[z3.MultiPattern(si, sj)]),
+                    z3.ForAll([i], z3.Implies(z3.And(0 <= i, i < ln), z3.And(src(i) >= 0, src(i) < ln, si == a.select([src(i)]))), patterns=[si]),
+                    z3.ForAll([i], z3.Implies(z3.And(0 <= i, i < ln), z3.And(dst(i) >= 0, dst(i) < ln, z3.Select(snew, dst(i)) == a.select([i]))),
+                              patterns=[dst(i)] if "lambda" in a.elems.sexpr() else [a.select([i])]))
+                st.assume(z3.Implies(nonan, facts))
+                # a NaN stays in the sequence wherever the sort leaves it
+                if a.et == "f":
+                    st.assume((z3.Not(nonan)) == z3.Exists([i], z3.And(i >= 0, i < ln, xr.is_nan(si))))
+                self.note_write(st, selfv, n)
+                self.sort_dst = getattr(self, "sort_dst", {})
+                self.sort_dst[selfv.cell] = dst
+                na = a.with_elems(snew)
+                if getattr(a, "is_list", False):
+                    na.is_list = True
+                st.heap[selfv.cell] = na
+                self.notes.append("assumed: seq.sort() leaves a non-decreasing rearrangement of a NaN-free sequence")
+                return VNone()
             if meth == "fill":
                 v = self.unwrap_elem(a, args[0], n)
                 st.heap[selfv.cell] = a.with_elems(const_array(a.et, a.ndim, v))
@@ -2301,7 +2361,7 @@ class Executor:
             coll = self.ev(it.args[0] if enum else it, st, spec)
             if isinstance(coll, VTuple) and not enum:
                 return self.unroll_for(s, coll.items, st, spec)
-            if isinstance(coll, VRef) and st.heap[coll.cell].ndim == 1:
+            if isinstance(coll, VRef) and (st.heap[coll.cell].ndim == 1 or (st.heap[coll.cell].ndim == 2 and not enum)):
                 hidden_arr = coll
                 lo, hi, step = z3.IntVal(0), st.heap[coll.cell].shape[0], 1
                 target = s.target
@@ -2332,7 +2392,13 @@ class Executor:
             state.env[ivar_name] = VInt(iv)
             if hidden_arr is not None:
                 a = state.heap[hidden_arr.cell]
-                self.assign(target, self.wrap_elem(a, a.select([iv])), state, s, spec)
+                if a.ndim == 1:
+                    self.assign(target, self.wrap_elem(a, a.select([iv])), state, s, spec)
+                else:
+                    # iterating a list of rows: the loop variable is the row
+                    cell = new_cell("row")
+                    state.heap[cell] = ArrData(a.select([iv]), a.shape[1:], a.et, a.roots, False)
+                    self.assign(target, VRef(cell), state, s, spec)
 
         # iteration counter semantics: i runs lo, lo+step, ... while (step>0 ? i<hi : i>hi)
         if isinstance(step, int) and step == 1:
